@@ -38,6 +38,9 @@ Items == {
   Stmt("R", TRUE, <<[t |-> "idx", x |-> "A", e |-> I(1)]>>, <<>>, <<[t |-> "idx", x |-> "A", e |-> I(3)]>>, "none"),
   Stmt("MeasureHomodyne", TRUE, <<>>, <<Kw("phi", [t |-> "neg", a |-> Var("y")]), Kw("select", Var("n"))>>, <<Var("n")>>, "none"),
   Stmt("K", TRUE, <<>>, <<>>, <<I(2)>>, "sq"),
+  \* free parameters: an ordinary name, names that merely begin like the reserved p<digits> names, and a reserved one
+  Stmt("Pq", TRUE, <<[t |-> "par", p |-> "p2x"]>>, <<Kw("k", [t |-> "par", p |-> "p0_bs"])>>, <<I(0)>>, "none"),
+  Stmt("Pr", TRUE, <<[t |-> "par", p |-> "p3"], [t |-> "par", p |-> "alpha"]>>, <<>>, <<I(1)>>, "none"),
   Stmt("MeasureFock", TRUE, <<>>, <<Kw("select", LstE(<<I(0), I(2)>>)), Kw("dark_counts", LstE(<<[t |-> "bool", b |-> TRUE], F(1, 2)>>)), Kw("x", LstE(<<I(7)>>))>>, <<I(0), I(1)>>, "sq"),
   Stmt("S2gate", TRUE, <<Var("z"), Var("s"), Var("b")>>, <<>>, <<[t |-> "bin", op |-> "+", l |-> Var("n"), r |-> I(1)]>>, "none"),
   [t |-> "for", ty |-> "int", x |-> "i", hdr |-> [t |-> "range", a |-> 0, b |-> 3, c |-> 2, hasc |-> TRUE],
